@@ -1,7 +1,7 @@
 (* C10 — Connection-scoped state never leaks into the next connection or session.  Statements
-   only; proofs in Conn/Scope.v.  Nothing else may be added to this file. *)
+   only; proofs in Conn/Scope.v, Conn/ScopeConnack.v, Conn/PidInv.v, Conn/PidInv2.v.  Nothing else may be added to this file. *)
 From MQ Require Import Base.Prelude Alloc.Alloc Framing.Framing Conn.Types Conn.ConnRecord Conn.Step Conn.Run Corr.ConnTrace Conn.Scope
-                       Conn.PidInv Conn.PidInv2.
+                       Conn.PidInv Conn.PidInv2 Conn.ScopeConnack.
 
 (* EVERY state (no reachability needed, hence every first-connection history and every close path):
    notify_closed resets the packet-size limits, the alias tables, the partially received frame, the
@@ -88,10 +88,50 @@ Theorem C10_reused_after_any_history_server : forall g v ops c c1 e v' p,
 Proof. exact reused_after_any_history_server. Qed.
 Print Assumptions C10_reused_after_any_history_server.
 
-(* C10_partial: the CONNACK(session not present) path is proved for the store-related state only
-   (C10_session_not_present_clears); the comparison of whole traces on that path is decided by the
-   paired-run monitor mon_pair (reused implementation object vs fresh implementation object,
-   events and full digest). *)
+(* THE OTHER WAY A SESSION ENDS: CONNECT without Clean Start, answered by a CONNACK with Session Present = 0
+   (Conn/ScopeConnack.v).  [upto_session a b]: equal once the session state (store, in-flight sets, identifiers,
+   handled ids, send count) is wiped.  For ANY two objects that agree on the connection scope and the options —
+   whatever sessions they hold: the CONNECT is accepted with equal events and leaves them equal up to the session;
+   the accepted CONNACK without Session Present then has EQUAL outcome (state and events) on both. *)
+Theorem C10_connect_sent_upto_session : forall a b p,
+  conn_scope_eq a b -> size_ok a p = true -> c_status a = Disconnected ->
+  match send_connect a p, send_connect b p with
+  | Ok (a1, ea), Ok (b1, eb) => ea = eb /\ upto_session a1 b1 /\ c_status a1 = Connecting
+  | Panic x, Panic y => x = y
+  | _, _ => False
+  end.
+Proof. exact connect_sent_upto_session. Qed.
+Print Assumptions C10_connect_sent_upto_session.
+
+Theorem C10_connack_not_present_is_scope_only : forall a b v p,
+  upto_session a b -> k_flag p = false -> k_rc p = 0 -> c_status a <> Connected ->
+  recv_connack a v (PROk p) = recv_connack b v (PROk p).
+Proof. exact connack_not_present_is_scope_only. Qed.
+Print Assumptions C10_connack_not_present_is_scope_only.
+
+(* consequently: after ANY first connection ended by notify_closed, a reused client object that reconnects
+   without Clean Start and is told "session not present" is in the very state of a fresh object with the same
+   options, with the same events at both calls, and EVERY script S then yields the same trace on both *)
+Theorem C10_reused_client_session_not_present : forall g c c1 e p v q,
+  do_closed c = Ok (c1, e) -> pid_bounds g c -> size_ok c1 p = true -> k_flag q = false -> k_rc q = 0 ->
+  match send_connect c1 p, send_connect (fresh_like g c) p with
+  | Ok (a1, ea), Ok (b1, eb) =>
+      ea = eb /\
+      match recv_connack a1 v (PROk q), recv_connack b1 v (PROk q) with
+      | Ok (a2, ea2), Ok (b2, eb2) => ea2 = eb2 /\ a2 = b2 /\ forall S, run_trace g a2 S = run_trace g b2 S
+      | Panic x, Panic y => x = y
+      | _, _ => False
+      end
+  | Panic x, Panic y => x = y
+  | _, _ => False
+  end.
+Proof. exact reused_client_session_not_present. Qed.
+Print Assumptions C10_reused_client_session_not_present.
+
+(* C10_partial: on the MODEL side what remains outside the theorems is traffic BETWEEN that CONNECT and its
+   CONNACK (a reused object still holds its old session there, by design: the session may yet be resumed).  The
+   implementation is judged by the paired-run monitor mon_pair (reused implementation object vs fresh
+   implementation object, events and full digest) and the quota stage, and tied to the model by the correspondence. *)
 
 Example C10_nonvacuous :
   let g := mkCfg RClient 65535 2 in
